@@ -89,4 +89,6 @@ def names(scheme, n):
         return ["0;1", "0", "1", "0; 1"][:n]
     if scheme == "reserved":
         return ["TRASH", "TrashNode", "Empty", "Start"][:n]
+    if scheme == "reserved2":
+        return ["Start", "TrashNode", "Empty", "TRASH"][:n]
     raise ValueError(scheme)
